@@ -226,6 +226,11 @@ def build(P):
                     ents.append("LEFT(%s, %d) & RIGHT(%s, LENGTH(%s) - %d) = %s" % (lit, n, lit, lit, n, lit))
                 for i in range(-2, L + 3):
                     ents.append("MID(%s, %d, %d)" % (lit, i, n))
+        big = [2147483647, 2147483648, 4294967296, 4294967297, 4294967300, 4294967306, 9223372036854775807, 8589934594]
+        for nb in big:
+            for sgn in ("", "- "):
+                for fn_ in ("LEFT(\"pseudocode\", %s%d)", "RIGHT(\"pseudocode\", %s%d)", "MID(\"pseudocode\", %s%d, 2)", "MID(\"pseudocode\", 2, %s%d)", "CHR(%s%d)", "MID(\"pseudocode\", %s%d, 4294967298)"):
+                    ents.append(fn_ % (sgn, nb))
         for k, ch in enumerate(chunks(ents, 800)):
             yield ("substrings", [repl_case("C17-sub-%d" % k, ch, meta=dict(units=ch))])
         # character functions, all 256 codes
@@ -428,8 +433,11 @@ def build(P):
                 for form in [nm, "%s + 1" % nm, "%s - 1" % nm, "%s = %s" % (nm, names[0]), "%s <> %s" % (nm, names[-1])]:
                     ents.append(form); units.append(form)
                 ents += ["%s <- %s" % (var, nm), var, "OUTPUT %s" % var]; units.append("%s <- %s" % (var, nm))
+        ents += ["PROCEDURE Inner()\nTYPE Level = (I0, I1, I2)\nDECLARE v : Level\nv <- I1\nOUTPUT \"inner \", v, \" \", v + 1, \" \", v + 2\nENDPROCEDURE",
+                 "PROCEDURE Outer()\nTYPE Level = (O0, O1)\nDECLARE w : Level\nw <- O1\nCALL Inner()\nOUTPUT \"outer \", w, \" \", w + 1\nENDPROCEDURE", "CALL Outer()", "CALL Inner()", "CALL Outer()",
+                 "PROCEDURE Rec(n : INTEGER)\nTYPE Depth = (D_a, D_b, D_c)\nDECLARE d : Depth\nd <- D_a + n\nIF n > 0 THEN\nCALL Rec(n - 1)\nENDIF\nOUTPUT n, \" \", d\nENDPROCEDURE", "CALL Rec(3)"]
         ents += ["PROCEDURE Loc()\nTYPE La = (X0, X1)\nTYPE Lb = (Y0, Y1, Y2)\nDECLARE lb : Lb\nlb <- Y0\nOUTPUT lb, \" \", lb + 1, \" \", Y2, \" \", X1, \" \", B1, \" \", D3\nENDPROCEDURE", "CALL Loc()", "CALL Loc()", "B2", "D0 + 5"]
-        yield ("several-types", [repl_case("C19-multi", ents, meta=dict(units=units + ["loc1", "loc2"], oracle=None))])
+        yield ("several-types", [repl_case("C19-multi", ents, meta=dict(units=units + ["loc1", "loc2", "nest1", "nest2", "nest3", "rec"], oracle=None))])
         # cross-type stores through every channel
         ents_all = []
         progs = []
